@@ -53,6 +53,9 @@ def fixed_depth_builder(ctx, crate):
         gt = [(op, show(a), show(c), pos) for op, a, c, pos in cmp_facts(evs[0].facts)]
         # the guard is `len > 0` (succeeded) — accept any succeeded gt/ne comparison of a len() result with 0
         cond = [g for g in gt if g[3] and g[0] in ("gt", "ne") and g[2] in ("0usize",)] + [g for g in gt if g[3] and g[0] == "lt" and g[1] == "0usize"]
+        # or `!self.buffer.is_empty()`
+        empt = [ev for ev in e.events.values() if ev.callee and strip_generics(ev.callee).endswith("::is_empty") and ev.ret is not None]
+        cond += [("is_empty", show(ev.ret)[:20], "false", True) for ev in empt if ('b', ev.ret, False) in evs[0].facts]
         ok = bool(cond)
     ctx.report(clause, "to_bmoc:drains-iff-nonempty", ok, "drain_buffer is called under %s" % cond, at=tb.span, kind="N")
     takes = [ev for ev in e.events.values() if ev.callee and strip_generics(ev.callee).endswith("Option::take")]
